@@ -875,7 +875,8 @@ impl<'a> Gen<'a> {
                 "compat" => {
                     if !self.ex.files.is_empty() {
                         let f = self.rng.below(self.ex.files.len() as u64) as usize;
-                        let v = *self.rng.pick(VERSIONS);
+                        // any of the 21 versions (bit k), biased to the versions files are created with
+                        let v = if self.rng.below(2) == 0 { *self.rng.pick(VERSIONS) } else { 1u32 << self.rng.below(21) };
                         if self.rng.below(3) == 0 { self.push(Op::SetVersion(f, v)); } else { self.push(Op::CheckCompat(f, v)); }
                     }
                 }
